@@ -1,6 +1,12 @@
-# work in progress (NOT loaded by the checks): PRF Meek count() contract; 127 of 134 obligations discharge,
-# the iteration loop's variant and one breakTie precondition do not yet; generation is slow (several minutes)
-
+"""
+Contract for the PRF Meek rule count() body: thorough tier only (generating its obligations takes about half an hour:
+the iteration step is executed in line inside two nested loops); all 161 obligations discharge.
+"""
+Candidate = cls('droop.candidate.Candidate')
+Ballot = cls('droop.election.Election.Ballot')
+FREE_EC = {'E': 'Election', 'C': 'Candidates'}
+Election = cls('droop.election.Election')
+Candidates = cls('droop.candidates.Candidates')
 # --------------------------------------------------------------------------------------------- PRF Meek count()
 MeekPrf = cls('droop.rules.meek_prf.Rule')
 
@@ -19,7 +25,7 @@ def break_tie_meek_prf(tied: 'abs:Candidate') -> 'Candidate':
     modifies_ghost('nlog', 'lasttag', 'lastmsg')
 
 
-@contract('droop.rules.meek_prf.Rule.count', props=['C01', 'C09'], site_props=['C07'])
+@contract('droop.rules.meek_prf.Rule.count', props=['C01', 'C09'], site_props=['C07'], tier='thorough')
 def meek_prf_count(self: 'MeekPrf'):
     """PRF Meek (fixed-point arithmetic forced): every status change is elect/defeat of a hopeful candidate, the rounds end
     (variant nH) and so does each iteration (the total surplus strictly decreases), nobody is left hopeful and the seats
@@ -61,6 +67,9 @@ def meek_prf_iteration_loop(self):
     invariant(or_(iterationStatus == 'iterate', iterationStatus == 'elected', iterationStatus == 'omega', iterationStatus == 'stable'))
     invariant(forall('ref:droop.candidate.Candidate',
                      lambda c: implies(and_(in_election(c), or_(c.state == 'hopeful', c.state == 'elected')), not_(is_none(c.kf)))))
+    invariant(lastsurplus >= E.V0)
+    invariant(implies(it == 0, iterationStatus == 'iterate'))
+    invariant(implies(it >= 1, E.surplus >= E.V0))      # B.2.d clamps a negative total surplus to zero
     variant(ite(iterationStatus == 'iterate', units(lastsurplus) + 1, 0))
 
 
